@@ -57,6 +57,7 @@ class Prov:
             else:
                 c = d.callee
                 out.add(('call', c.path if c else '<indirect>'))
+                out.add(('calldest', c.path if c else '<indirect>', d.dest.t))
                 for a in d.args:
                     out |= self.operand(a, seen)
         seen.discard(l)
